@@ -46,9 +46,26 @@ def eval_guard(g, env, rel):
                 op = {'Lt': 'Gt', 'Le': 'Ge', 'Gt': 'Lt', 'Ge': 'Le'}.get(op, op)
             return {'Eq': rel == 'eq', 'Ne': rel != 'eq', 'Lt': rel == 'lt', 'Le': rel in ('lt', 'eq'),
                     'Gt': rel == 'gt', 'Ge': rel in ('gt', 'eq')}[op]
+        # a version against a literal: only 0 is decidable on the abstract versions (zero / nonzero)
+        for x, y, flip in ((a, g['r'], False), (b, g['l'], True)):
+            lit = strip_block(y)
+            if x and x[0] == 'ver' and x[1] in ('zero', 'nonzero') and lit.get('k') == 'lit' and lit['v'].get('v') == 0:
+                op = g['op']
+                if flip:
+                    op = {'Lt': 'Gt', 'Le': 'Ge', 'Gt': 'Lt', 'Ge': 'Le'}.get(op, op)
+                z = x[1] == 'zero'
+                return {'Eq': z, 'Ne': not z, 'Lt': False, 'Le': z, 'Gt': not z, 'Ge': True}[op]
     if g.get('k') == 'binary' and g.get('op') in ('And', 'Or'):
         l, r = eval_guard(g['l'], env, rel), eval_guard(g['r'], env, rel)
         return (l and r) if g['op'] == 'And' else (l or r)
+    if g.get('k') == 'unary' and g.get('op') == 'Not':
+        return not eval_guard(g['e'], env, rel)
+    if g.get('k') == 'block' and not g.get('stmts') and 'tail' in g:
+        return eval_guard(g['tail'], env, rel)
+    if g.get('k') == 'path':
+        v = local_val(g, env)
+        if v and v[0] == 'bool':
+            return v[1]
     raise NoMatch('guard shape')
 
 
